@@ -45,6 +45,7 @@ type Report struct {
 	Explanation string
 	Technique   string
 	Floors      map[string]int // rule -> minimum number of obligations confirmed by hand
+	Normalised  map[string]any // set when the verdict was reached on the inlined normal form
 }
 
 func NewReport(prop, tier string, seed int64) *Report {
@@ -102,6 +103,33 @@ func LoadKnown(path string) (*KnownFindings, error) {
 		return nil, fmt.Errorf("%s: %w", path, err)
 	}
 	return k, nil
+}
+
+// Unlisted counts the violations (floor shortfalls included) that the known-findings file does
+// not list, without changing the report.
+func (r *Report) Unlisted(known *KnownFindings) int {
+	perRule := map[string]int{}
+	for _, o := range r.Obs {
+		perRule[o.Rule]++
+	}
+	n := 0
+	for rule, fl := range r.Floors {
+		if perRule[rule] < fl {
+			n++
+		}
+	}
+	knownKey := map[string]bool{}
+	for _, f := range known.Findings {
+		if f.Property == r.Prop {
+			knownKey[f.Rule+" "+f.Construct] = true
+		}
+	}
+	for _, o := range r.Obs {
+		if o.Verdict == Violation && !knownKey[o.Key()] {
+			n++
+		}
+	}
+	return n
 }
 
 // Finish applies floors and known findings, writes evidence, prints the contract lines and
@@ -211,6 +239,9 @@ func (r *Report) Finish(verifDir string, known *KnownFindings) int {
 		"per_rule":            rules,
 		"floors":              r.Floors,
 		"all_obligations":     r.Obs,
+	}
+	if r.Normalised != nil {
+		cov["normalisation"] = r.Normalised
 	}
 	if r.Tier == "thorough" {
 		// embed the checker self-test for this property if run.sh just produced it
